@@ -32,12 +32,23 @@ def g_obs(o):
             f"o_lockfree := {gbool(o['lockfree'])}; o_runs := {gnat(o['B'])}; o_completed := {gnat(o['E'])} |}}")
 
 
+def g_waiter(w):
+    if w is None:
+        return "None"
+    if not w["fired"]:   # the second process did not wait for the lock: nothing the model can do (it blocks there)
+        w = dict(w, sig="KILL", ctx="prop", pre=["<did not wait for the run lock>"])
+    return (f"(Some {{| w_out := {OUTCOME[w['mode']]}; w_death := (S{w['sig'].capitalize()}, C{w['ctx'].capitalize()}); "
+            f"w_pre := {glist(g_ev(e) for e in w['pre'])}; w_post := {glist(g_ev(e) for e in w['post'])}; "
+            f"w_obs := {g_obs(w['obs'])} |}})")
+
+
 def g_launch(l):
     death = "None"
     if l["fired"]:
         death = f"(Some (S{l['sig'].capitalize()}, C{l['ctx'].capitalize()}))"
     return (f"{{| l_out := {OUTCOME[l['mode']]}; l_death := {death}; l_pre := {glist(g_ev(e) for e in l['pre'])}; "
-            f"l_post := {glist(g_ev(e) for e in l['post'])}; l_obs := {g_obs(l['obs'])} |}}")
+            f"l_post := {glist(g_ev(e) for e in l['post'])}; l_obs := {g_obs(l['obs'])}; "
+            f"l_waiter := {g_waiter(l.get('waiter'))}; l_again := {gbool(bool(l.get('killed_again')))} |}}")
 
 
 def g_case(case):
@@ -71,10 +82,32 @@ def oracle_history(launches):
             yield ("C10:body-run-twice", "one launch entered the body %d times" % ran, i)
         # termination signal while the body runs
         if l["fired"] and l["sig"] in ("TERM", "INT") and "BodyBegin" in l["pre"] and "BodyEnd" not in l["pre"]:
-            if a["failed"] is None:
+            if a["failed"] is None and not l.get("killed_again"):  # (a SIGKILL inside the handler: no claim)
                 yield ("C10:signal-in-body:no-failure-marker", f"SIG{l['sig']} during the body left no failure marker", i)
             if a["done"]:
                 yield ("C10:signal-in-body:success-marker", f"SIG{l['sig']} during the body left a success marker", i)
+        # two job processes for one job: the one that never had the run lock changes nothing
+        w = l.get("waiter")
+        if w:
+            b, m = w["before"], w["obs"]
+            how = ((f"a second job process that received SIG{w['sig']} "
+                   + ("while blocked in lock.acquire" if w.get("ext") is not None else f"at its executed line {w['n']} ({w['at']})")
+                   if w["fired"] else "a second job process that ended by itself instead of waiting for the run lock")
+                   + ", the first process being in its body with the run lock")
+            if "Lock" in w["pre"] + w["post"]:
+                yield ("C10:run-lock-taken-twice", "a second job process took the run lock while the first held it", i)
+            if m["failed"] != b["failed"]:
+                yield ("C10:failure-marker-written-by-lock-waiter", how + ", wrote the failure marker", i)
+            elif not l["fired"] and l["mode"] in SUCCESS and a["done"] and a["failed"] is not None:
+                yield ("C10:failure-marker-written-by-lock-waiter", "both markers at the end of a double launch whose only run of the body succeeded", i)
+            if b["pid"] and not m["pid"]:
+                yield ("C10:pid-file-removed-by-lock-waiter", how + ", removed the pid file", i)
+            if m["lockfree"]:
+                yield ("C10:lock-lost-while-holder-in-body", how + ": afterwards a probe could take the run lock", i)
+            if (m["B"], m["E"], m["X"]) != (b["B"], b["E"], b["X"]):
+                yield ("C10:body-run-by-lock-waiter", how + ", entered the body", i)
+            if m["done"] != b["done"]:
+                yield ("C10:done-without-completed-body", how + ", changed the success marker", i)
         # a job that ended on its own leaves no pid file
         if not l["fired"] and a["pid"]:
             cls = "done-preexisting" if before["done"] else l["mode"]
@@ -93,6 +126,78 @@ def relaunches(rng, quick):
         if j < k - 1 and rng.random() < 0.6:
             l.update(sig=rng.choice(SIGNALS), n=rng.randrange(1, 92))
         out.append(l)
+    return out
+
+
+def twice_cases(c, refs):
+    """A second death of the same process: SIGTERM / SIGINT at the n-th executed line, then SIGKILL when j observable
+    effects have followed it (inside handle_error / cleanup, the except clause or the exit callback)."""
+    out = []
+    ref = {(r["prefix"], r["mode"]): r for r in refs}
+    for prefix, mode in [("fresh", "ok"), ("fresh", "raise"), ("stale-failed", "ok")] + ([] if c.quick else [("fresh", "exit3"), ("done", "ok")]):
+        r = ref[(prefix, mode)]["ans"][-1]
+        nlines = len(r["lines"])
+        if not r["lock_n"] or not r["pre_n"] or r["lock_n"] + 9 > nlines:
+            continue
+        first = r["pre_n"][0]     # from the registration of the exit callback on, a signal sets something off
+        if c.quick:
+            # mostly where the handling of the signal has several observable effects: once the lock is held
+            ns = sorted(c.rng.sample(range(r["lock_n"] + 1, nlines + 1), 8 if (prefix, mode) == ("fresh", "ok") else 4)
+                        + [c.rng.randrange(first, r["lock_n"] + 1)])
+            plan = [(n, c.rng.choice(["TERM", "INT"]), j) for n in ns for j in c.rng.sample(range(4), 2)]
+        else:
+            ns = range(first + c.rng.randrange(3), nlines + 1, 3)
+            plan = [(n, sig, j) for n in ns for sig in ("TERM", "INT") for j in range(5)]
+        for n, sig, j in plan:
+            out.append(dict(kind="twice", prefix=prefix, mode=mode,
+                            launches=[dict(mode=m) for m in PREFIXES[prefix]] + [dict(mode=mode, sig=sig, n=n, kill_after=j)]
+                            + relaunches(c.rng, True)))
+    return out
+
+
+def double_cases(c, refs):
+    """Two job processes for one job: H (outcome hmode) is held in its body; W gets a signal at its n-th executed
+    line (1 .. the line that calls lock.acquire) or from outside while it is blocked in lock.acquire (after a
+    generated delay); H then goes on and, in some cases, dies as well; 1-2 relaunches follow."""
+    out = []
+    ref = {(r["prefix"], r["mode"]): r for r in refs}
+    combos = [("fresh", "ok"), ("fresh", "raise"), ("stale-failed", "ok")]
+    if not c.quick:
+        combos += [("fresh", "exit3"), ("stale-failed", "raise"), ("fresh", "base")]
+    for prefix, hmode in combos:
+        r = ref[(prefix, hmode)]["ans"][-1]
+        lock_n, body_n, nlines = r["lock_n"], r["body_n"], len(r["lines"])
+        if not lock_n or not body_n or body_n >= nlines:
+            continue   # (a tree whose runner takes no lock / runs no body here: the sweep and the references report it)
+        # lines executed when the exit callback / the two handlers were installed (whatever precedes the lock)
+        steps = r["pre_n"][:r["pre"].index("Lock")] or [lock_n]
+        # classes of points: before the first private step, after each of them, the call of lock.acquire
+        classes = {steps[0], lock_n} | {n + 1 for n in steps}
+        full = (prefix, hmode) == ("fresh", "ok")
+        if not c.quick:
+            points = set(range(1, lock_n + 1)) if full else classes | set(range(c.rng.randrange(2), lock_n + 1, 2))
+            plan = [(n, sig) for n in sorted(points) for sig in SIGNALS]
+            plan += [(("ext", d), sig) for d in (c.rng.randrange(0, 30), c.rng.randrange(30, 250)) for sig in SIGNALS]
+        elif full:
+            points = classes | set(range(1 + c.rng.randrange(3), lock_n + 1, 3))
+            plan = [(n, sig) for n in sorted(points) for sig in ("TERM", "INT")]
+            plan += [(c.rng.choice(sorted(points)), "KILL"), (lock_n, "KILL")]
+            plan += [(("ext", c.rng.randrange(0, 150)), sig) for sig in ("TERM", "INT")]
+        else:
+            plan = [(steps[-1] + 1, "INT"), (lock_n, "TERM"), (c.rng.randrange(1, lock_n + 1), c.rng.choice(SIGNALS)),
+                    (("ext", c.rng.randrange(0, 150)), c.rng.choice(["TERM", "INT"]))]
+        for pt, sig in plan:
+            w = dict(mode=c.rng.choice(["ok", "raise"]), sig=sig)
+            if isinstance(pt, tuple):
+                w.update(ext=pt[1], after_line=lock_n)
+            else:
+                w.update(n=pt)
+            h = dict(mode=hmode, waiter=w)
+            if c.rng.random() < (0.25 if c.quick else 0.4):
+                # both die: H gets its own signal once it has been let go
+                h.update(sig=c.rng.choice(SIGNALS), n=c.rng.randrange(body_n + 1, nlines + 1))
+            out.append(dict(kind="double", prefix=prefix, mode=hmode,
+                            launches=[dict(mode=m) for m in PREFIXES[prefix]] + [h] + relaunches(c.rng, True)))
     return out
 
 
@@ -125,8 +230,6 @@ def run(c: Check):
     if rp and "launches" in rp:
         cases.append(dict(kind="replay", launches=rp["launches"]))
     else:  # (a replay file without a history names broken obligations: run the whole tier again)
-        for g in json.load(open(ROOT / "golden" / "c10.json")):
-            cases.append(dict(kind="golden", launches=g["launches"]))
         # reference executions: how many lines each (initial directory, outcome) executes, and which
         refs = []
         for pname, prefix in PREFIXES.items():
@@ -138,13 +241,30 @@ def run(c: Check):
             r["ans"] = a["launches"]
             r["lines"] = a["launches"][-1]["lines"]
         cases.extend(refs)
+        # pinned histories; symbolic points are resolved with the reference run of a fresh directory
+        r0 = next(r for r in refs if (r["prefix"], r["mode"]) == ("fresh", "ok"))["ans"][-1]
+        pn = (r0["pre_n"] + [1, 1, 1])[:3]
+        sym = {"acquire": r0["lock_n"] or 1, "after-atexit": pn[0] + 1, "after-handlers": pn[2] + 1,
+               "in-body": (r0["body_n"] or 0) + 1}
+
+        def resolve(l):
+            l = dict(l)
+            for k in ("n", "after_line"):
+                if isinstance(l.get(k), str):
+                    l[k] = sym[l[k]]
+            if l.get("waiter"):
+                l["waiter"] = resolve(l["waiter"])
+            return l
+
+        for g in json.load(open(ROOT / "golden" / "c10.json")):
+            cases.append(dict(kind="golden", launches=[resolve(l) for l in g["launches"]]))
         for r in refs:
             if r["prefix"] == "stale-failed" and r["mode"] not in (("ok", "raise") if c.quick else ("ok", "raise", "exit3")):
                 continue  # a stale failure marker only adds RmFailed: fewer outcomes there
             lines = r["lines"]
             ns = set(range(1, len(lines) + 1))
             if r["mode"] != "ok":  # before the body starts all outcomes execute the same lines in the same state
-                first_body = min(n for n, t in enumerate(lines, 1) if t.startswith("task:"))
+                first_body = min([n for n, t in enumerate(lines, 1) if t.startswith("task:")] or [len(lines) + 1])
                 ns = {n for n in ns if n >= first_body}
             if c.quick:
                 off = c.rng.randrange(4)
@@ -160,6 +280,8 @@ def run(c: Check):
                     cases.append(dict(kind="sweep", prefix=r["prefix"], mode=r["mode"],
                                       launches=[dict(mode=m) for m in PREFIXES[r["prefix"]]]
                                       + [dict(mode=r["mode"], sig=sig, n=n)] + relaunches(c.rng, c.quick)))
+        cases.extend(double_cases(c, refs))
+        cases.extend(twice_cases(c, refs))
     todo = [x for x in cases if "ans" not in x]
     ans = run_impl("drive_c10.py", dict(scratch=str(scratch / "sweep"), cases=todo), timeout=1500 if c.quick else 7000)
     for x, a in zip(todo, ans):
@@ -175,9 +297,29 @@ def run(c: Check):
                 raise InternalError("a job process did not end within the time limit: %s" % json.dumps(x["launches"]))
             c.count("outcome:" + l["mode"])
             c.count("death:" + (f"{l['sig']}:{l['ctx']}" if l["fired"] else "none"))
+            if l.get("killed_again"):
+                c.count("second-death:SIGKILL-after-%d-effects-of-the-handling-of-%s" % (len(l["post"]), l["sig"]))
+                c.nontrivial.add(("twice", x.get("prefix"), l["mode"], l["sig"], l["n"], len(l["post"])))
             if l["fired"]:
                 kill_lines.add(l["at"])
                 c.count("effects-before-death=%d" % len(l["pre"]))
+            w = l.get("waiter")
+            if w:
+                if "Lock" in w["pre"] + w["post"] or (not w["fired"] and not w["never_died"]):
+                    # the second process got the lock although the first holds it, or ended by itself instead of
+                    # waiting for the lock: the oracle looks at what it did, the model (it blocks) will not agree
+                    c.count("lock-waiter:did-not-wait")
+                    continue
+                if w["never_died"] or not w["holder_alive"] or not w["fired"]:
+                    raise InternalError("double launch not as planned (second process %s, first process %s): %s" % (
+                        "did not die" if w["never_died"] or not w["fired"] else "died", "alive" if w["holder_alive"] else "gone",
+                        json.dumps(x["launches"])))
+                where = "blocked-in-acquire" if w.get("ext") is not None else (
+                    "at-acquire-call" if w["pre"] == ["RegAtexit", "SetTerm", "SetInt"] and w["ctx"] == "try"
+                    else "after-%d-private-steps" % len(w["pre"]))
+                c.count(f"lock-waiter:{w['sig']}:{where}")
+                c.count("double-launch:" + ("both-die" if l["fired"] else "holder-ends-by-itself:" + l["mode"]))
+                c.nontrivial.add(("double", x.get("prefix"), l["mode"], w["sig"], w.get("n") or "ext", l["sig"] if l["fired"] else None))
         c.count("launches-per-history=%d" % len(x["ans"]))
         if x["kind"] == "sweep":
             sw = x["ans"][len(PREFIXES[x["prefix"]])]
@@ -189,12 +331,9 @@ def run(c: Check):
                 best[key] = (what, x, i)
     for key, (what, x, i) in sorted(best.items()):
         c.violation(key, what, dict(launches=x["launches"][:i + 1], failing_launch=i,
-                                    observed=[dict(mode=l["mode"], sig=l["sig"] if l["fired"] else None, at=l["at"],
-                                                   ctx=l["ctx"], effects_before=l["pre"], effects_after=l["post"],
-                                                   exit_status=l["rc"], directory=l["obs"]) for l in x["ans"][:i + 1]]))
-    c.samples = [dict(launches=x["launches"], observed=[dict(at=l["at"], ctx=l["ctx"], before=l["pre"], after=l["post"],
-                                                              directory=l["obs"]) for l in x["ans"]])
-                 for x in cases if x["kind"] == "sweep"][:3]
+                                    observed=[seen(l) for l in x["ans"][:i + 1]]))
+    c.samples = ([dict(launches=x["launches"], observed=[seen(l) for l in x["ans"]]) for x in cases if x["kind"] == "sweep"][:3]
+                 + [dict(launches=x["launches"], observed=[seen(l) for l in x["ans"]]) for x in cases if x["kind"] == "double"][:3])
     run_lines = sorted({int(t.split(":")[1]) for t in kill_lines if t.startswith("run:")})
     ref_lines = {t for x in cases if x["kind"] == "ref" for t in x["lines"]}
     c.extra["executed_lines_never_a_death_point"] = sorted(ref_lines - kill_lines)
@@ -207,11 +346,14 @@ def run(c: Check):
     bad = c.corr_shards("corr", header, cases, g_case, "check_case", shard=300)
     if bad:
         sub = [cases[i] for i in bad]
-        bad2 = set(c_diag(c, header, sub))
+        bad1 = set(c_diag(c, header, sub, "check_case_fixed"))
+        bad2 = set(c_diag(c, header, sub, "check_case_prefix"))
         c.extra["disagreeing_cases"] = [dict(launches=cases[i]["launches"], observed=cases[i]["ans"],
-                                             agrees_with_prefix_model=(j not in bad2))
+                                             agrees_with_model_of_the_code_before_fix_C10_2=(j not in bad1),
+                                             agrees_with_model_of_the_pinned_commit=(j not in bad2))
                                         for j, i in enumerate(bad)][:5]
         c.extra["disagreeing_total"] = len(bad)
+        c.extra["disagreeing_but_explained_by_literal_model_before_fix_C10_2"] = len(bad) - len(bad1)
         c.extra["disagreeing_but_explained_by_literal_prefix_model"] = len(bad) - len(bad2)
     c.level_assumptions = [
         "partial: 'the run lock dies with the process' is the operating system's behaviour (fcntl locks); the model "
@@ -223,13 +365,26 @@ def run(c: Check):
     ]
 
 
-def c_diag(c, header, sub):
-    """Which of the disagreeing cases does the literal pre-fix model explain? (diagnosis, not an obligation)"""
+def seen(l):
+    d = dict(mode=l["mode"], sig=l["sig"] if l["fired"] else None, at=l["at"], ctx=l["ctx"], effects_before=l["pre"],
+             effects_after=l["post"], exit_status=l["rc"], directory=l["obs"])
+    if l.get("killed_again"):
+        d["then_SIGKILL_before"] = l["at2"]
+    w = l.get("waiter")
+    if w:
+        d["second_process"] = dict(sig=w["sig"], at=w["at"], ctx=w["ctx"], sent_from_outside_while_blocked=w.get("ext") is not None,
+                                   effects_before=w["pre"], effects_after=w["post"], exit_status=w["rc"],
+                                   directory_when_it_started=w["before"], directory_when_it_was_gone=w["obs"])
+    return d
+
+
+def c_diag(c, header, sub, checker):
+    """Which of the disagreeing cases does a literal model of an earlier state of the code explain? (diagnosis, not an obligation)"""
     body = [header, "Definition cases := [", ";\n".join(g_case(x) for x in sub), "].",
             "Fixpoint badidx {A} (f : A -> bool) (l : list A) (i : nat) : list nat :=\n"
             "  match l with [] => [] | x :: l' => if f x then badidx f l' (S i) else i :: badidx f l' (S i) end.",
-            "Definition answer : list nat := badidx check_case_prefix cases 0%nat.", "Eval vm_compute in answer."]
-    rc, out, err = c.coq_eval("diag", "\n".join(body), 600)
+            f"Definition answer : list nat := badidx {checker} cases 0%nat.", "Eval vm_compute in answer."]
+    rc, out, err = c.coq_eval("diag_" + checker, "\n".join(body), 600)
     if rc != 0:
         return list(range(len(sub)))
     from vcommon import parse_natlist
